@@ -28,8 +28,11 @@ MANIFEST = {
             "deadlock + rank strictly decreasing on every non-idle step + idle turns never block). Trusted: Coq kernel, the "
             "translator translator/pysync.py, extraction, CPython's queue.Queue/threading semantics as written in Model/PyThreads.v "
             "(sequentially consistent attribute access under the GIL; get(timeout) raises Empty only when the queue is empty). "
-            "Callbacks are atomic between synchronisation operations; stop() from inside a callback, two concurrent stop() calls and "
-            "callbacks that trigger for ever are outside the quantifier. Random and preemption-bounded exhaustive schedules are "
+            "Callbacks: a callback is NOT one step -- each Trigger it makes is Call/ReadFlag/Put, interleavable with every other "
+            "thread (incl. while stop() is in progress: covered by the theorems and by the enumerated scenario family); only its own "
+            "code between two machine operations is atomic. Excluded (Props/C11.v, list (a)-(d)): a callback that blocks on a "
+            "primitive of its own, that calls stop(), that raises (the worker would die without task_done()), or that triggers "
+            "without bound; two concurrent stop() calls. Random and preemption-bounded exhaustive schedules are "
             "model validation and search, not the proof.",
 }
 RULE = ("random generated machines (random tables, threaded and a few unthreaded) x random scripts (0-3 producers, 0-3 events each, "
@@ -171,10 +174,22 @@ def exhaustive(ctx, m, tsk):
         ({"main": [Ev(1, m["events"][0], [Ev(2, m["events"][-1])])]}, 1),
         ({"main": [Ev(1, m["events"][0])], "p0": [Ev(2, m["events"][-1]), Ev(3, m["events"][0])]}, 1),
     ]
+    # family "Trigger from inside a callback while stop() is in progress": the owner of the callback is the worker, main is
+    # inside stop() (blocked in Queue.join() or racing towards it), optionally a producer triggers at the same time
+    e0, e1 = m["events"][0], m["events"][-1]
+    scen += [
+        ({"main": [], "p0": [Ev(1, e0, [Ev(2, e1), Ev(3, e0)])]}, 1),                 # stop() called with nothing queued yet
+        ({"main": [Ev(1, e0, [Ev(2, e1, [Ev(3, e0)])])]}, 1),                          # a callback-triggered event triggers again
+        ({"main": [Ev(1, e0, [Ev(2, e1)])], "p0": [Ev(3, e0)]}, 1),                    # + a producer racing with both
+    ]
+    if not ctx.quick:
+        scen += [({"main": [Ev(1, e0, [Ev(2, e1), Ev(3, e0)])], "p0": [Ev(4, e1, [Ev(5, e0)])]}, 2),
+                 ({"main": [], "p0": [Ev(1, e0, [Ev(2, e1)])], "p1": [Ev(3, e1, [Ev(4, e0)])]}, 1)]
     if not ctx.quick:
         scen += [({"main": [], "p0": [Ev(1, m["events"][0])], "p1": [Ev(2, m["events"][-1])]}, 2),
                  ({"main": [Ev(1, m["events"][0])], "p0": [Ev(2, m["events"][0], [Ev(3, m["events"][-1])])]}, 2)]
     limit = ctx.budget(400, 4000)
+    covered = [0]
     for scripts, k in scen:
         scheds = enumerate_schedules(ctx.km, scripts, True, k, 90, limit)
         ctx.count("enumerated_schedules(preemptions<=%d)" % k, len(scheds))
@@ -187,6 +202,16 @@ def exhaustive(ctx, m, tsk):
                 bad = L.oracle(real, scripts, True, expect_termination=False)
                 mod = L.model_trace(ctx.km, scripts, True, sched)
                 diff = L.compare(res, mod)
+                # coverage of the family: a Trigger call made by the worker (= from inside a callback) between the call of
+                # stop() and its return, on the real run
+                tr = real.run.sched.trace
+                labs = [lab for (_t, lab) in tr]
+                if "StopCall" in labs:
+                    i0 = labs.index("StopCall")
+                    i1 = labs.index("StopRet") if "StopRet" in labs else len(labs)
+                    if any(t == "worker" and lab.startswith("Call ") for (t, lab) in tr[i0:i1]):
+                        ctx.count("enumerated:callback_trigger_while_stop_in_progress")
+                        covered[0] += 1
                 replay = {"scripts": L.scripts_json(scripts), "schedule": sched, "table": m["table"], "threaded": True}
                 ctx.case(("enum", json.dumps(L.scripts_json(scripts)), tuple(sched)), nontrivial=True)
                 if not bad and not real.enabled() and not res["stop_returned"]:
@@ -203,6 +228,8 @@ def exhaustive(ctx, m, tsk):
                     return
             finally:
                 real.close()
+    if not covered[0]:
+        ctx.tie_broken("the enumeration no longer covers 'Trigger from inside a callback while stop() is in progress'")
 
 
 def run(ctx):
